@@ -46,8 +46,8 @@ noncomputable def hqsVal (h α y z : ℝ) : ℝ := (geInd z y - α) * (gfun h z 
 theorem gfun_of_ne {h : ℝ} (h1 : h ≠ 1) (h0 : h ≠ 0) (x : ℝ) : gfun h x = x ^ h / h := by
   simp [gfun, h1, h0]
 
-theorem geInd_of_le {y z : ℝ} (hyz : y ≤ z) : geInd z y = 1 := by simp [geInd, hyz]
-theorem geInd_of_lt {y z : ℝ} (hyz : z < y) : geInd z y = 0 := by simp [geInd, not_le.2 hyz]
+theorem hqs_geInd_of_le {y z : ℝ} (hyz : y ≤ z) : geInd z y = 1 := by simp [geInd, hyz]
+theorem hqs_geInd_of_lt {y z : ℝ} (hyz : z < y) : geInd z y = 0 := by simp [geInd, not_le.2 hyz]
 
 theorem oddDeg_ne_one {h : ℝ} (ho : oddDeg h) : h ≠ 1 := ne_of_gt ho.1
 theorem oddDeg_ne_zero {h : ℝ} (ho : oddDeg h) : h ≠ 0 := by
@@ -163,9 +163,9 @@ theorem half_abs_eq {h y z : ℝ} (d : hqsDom h y z) :
     1 / 2 * |gfun h z - gfun h y| = (geInd z y - 1 / 2) * (gfun h z - gfun h y) := by
   rcases le_or_gt y z with hyz | hyz
   · have := gfun_le d hyz
-    rw [geInd_of_le hyz, abs_of_nonneg (by linarith)]; ring
+    rw [hqs_geInd_of_le hyz, abs_of_nonneg (by linarith)]; ring
   · have := gfun_lt (hqsDom_symm d) hyz
-    rw [geInd_of_lt hyz, abs_of_neg (by linarith)]; ring
+    rw [hqs_geInd_of_lt hyz, abs_of_neg (by linarith)]; ring
 
 theorem hqsFin_eq {h α y z : ℝ} (d : hqsDom h y z) :
     hqsFin α (gfun h z - gfun h y) y z = hqsVal h α y z := by
@@ -198,10 +198,10 @@ theorem hqsVal_nonneg {h α y z : ℝ} (h0 : 0 < α) (h1 : α < 1) (d : hqsDom h
   unfold hqsVal
   rcases le_or_gt y z with hyz | hyz
   · have := gfun_le d hyz
-    rw [geInd_of_le hyz]
+    rw [hqs_geInd_of_le hyz]
     exact mul_nonneg (by linarith) (by linarith)
   · have := gfun_lt (hqsDom_symm d) hyz
-    rw [geInd_of_lt hyz]
+    rw [hqs_geInd_of_lt hyz]
     exact mul_nonneg_of_nonpos_of_nonpos (by linarith) (by linarith)
 
 theorem hqsVal_pos {h α y z : ℝ} (h0 : 0 < α) (h1 : α < 1) (d : hqsDom h y z) (hne : y ≠ z) :
@@ -209,10 +209,10 @@ theorem hqsVal_pos {h α y z : ℝ} (h0 : 0 < α) (h1 : α < 1) (d : hqsDom h y 
   unfold hqsVal
   rcases lt_or_gt_of_ne hne with hyz | hyz
   · have := gfun_lt d hyz
-    rw [geInd_of_le hyz.le]
+    rw [hqs_geInd_of_le hyz.le]
     exact mul_pos (by linarith) (by linarith)
   · have := gfun_lt (hqsDom_symm d) hyz
-    rw [geInd_of_lt hyz]
+    rw [hqs_geInd_of_lt hyz]
     exact mul_pos_of_neg_of_neg (by linarith) (by linarith)
 
 theorem hqsVal_mono_right {h α y z₁ z₂ : ℝ} (_h0 : 0 < α) (h1 : α < 1)
@@ -222,7 +222,7 @@ theorem hqsVal_mono_right {h α y z₁ z₂ : ℝ} (_h0 : 0 < α) (h1 : α < 1)
     ⟨((hqsDom_iff _ _ _).1 d₁).2, ((hqsDom_iff _ _ _).1 d₂).2⟩
   have := gfun_le d h₂
   unfold hqsVal
-  rw [geInd_of_le h₁, geInd_of_le (le_trans h₁ h₂)]
+  rw [hqs_geInd_of_le h₁, hqs_geInd_of_le (le_trans h₁ h₂)]
   exact mul_le_mul_of_nonneg_left (by linarith) (by linarith)
 
 theorem hqsVal_mono_left {h α y z₁ z₂ : ℝ} (h0 : 0 < α) (_h1 : α < 1)
@@ -235,7 +235,7 @@ theorem hqsVal_mono_left {h α y z₁ z₂ : ℝ} (h0 : 0 < α) (_h1 : α < 1)
     ⟨((hqsDom_iff _ _ _).1 d₂).2, ((hqsDom_iff _ _ _).1 d₁).2⟩
   have := gfun_le d h₁
   unfold hqsVal
-  rw [geInd_of_lt l, geInd_of_lt (lt_of_le_of_lt h₁ l)]
+  rw [hqs_geInd_of_lt l, hqs_geInd_of_lt (lt_of_le_of_lt h₁ l)]
   have e : ∀ s : ℝ, (0 - α) * s = α * (-s) := fun s => by ring
   rw [e, e]
   exact mul_le_mul_of_nonneg_left (by linarith) h0.le
